@@ -349,3 +349,30 @@ func HarnessC06Conc() {
 	}
 	c06Common(e, cfg, 3)
 }
+
+// ---- C06.tick: the interval export. One or two records, no flush: the ticker
+// may fire at any synchronisation point (or never) before Shutdown drains
+func HarnessC06Tick() {
+	stopped := false
+	e := &c06Exporter{stopped: &stopped}
+	b := NewBatchProcessor(e, WithMaxQueueSize(3), WithExportMaxBatchSize(2), WithExportBufferSize(1), WithExportInterval(time.Second), WithExportTimeout(time.Hour))
+	ctx := context.Background()
+	n := 1 + vndChoice(2)
+	for i := 0; i < n; i++ {
+		r := c06Rec(i)
+		b.OnEmit(ctx, &r)
+	}
+	vndYield() // time passes: the poll goroutine (and the ticker) may run
+	vndAssert(b.Shutdown(ctx) == nil, "shutdown-returns-nil")
+	vndGhostStore(&stopped, true)
+	all := e.flat()
+	vndReach("ticked")
+	vndAssert(len(all) == n, "every-emitted-record-exported-exactly-once")
+	for i := 0; i < n; i++ {
+		vndAssert(c06Count(all, i) == 1, "every-emitted-record-exported-exactly-once")
+	}
+	for i := 0; i+1 < len(all); i++ {
+		vndAssert(all[i] < all[i+1], "records-exported-in-emission-order")
+	}
+	c06Common(e, c06Cfg{3, 2, 1}, n)
+}
